@@ -552,6 +552,17 @@ func buildScenarios() []*mc.Scenario {
 			cRemoveAllChildren("RemoveAllChildren(/,self)", selRoot, true),
 			cRename("rename(d1/e->d2/c)", selD1, "e", selD2, "c"),
 			cCreateAndEnter("CreateAndEnter(d2/c)", selD2, "c", "")),
+		// Larger mixes (quick: two preemptions; thorough: everything).
+		concurrentScenario("conc-ring-of-renames", scOpt{quick: 2},
+			cRename("rename(d1/a->d2/a)", selD1, "a", selD2, "a"),
+			cRename("rename(d2/b->d1/e/b)", selD2, "b", selE, "b"),
+			cRename("rename(d1/e/x->d1/x)", selE, "x", selD1, "x"),
+			cLookup("lookup(d1/e)", selD1, "e")),
+		concurrentScenario("conc-mixed-four", scOpt{quick: 2, c13: true},
+			cRemoveAll("RemoveAll(/d1)", selRoot, "d1"),
+			cRename("rename(d2/c->d1/g)", selD2, "c", selD1, "g"),
+			cReadDir("readdir(d1)", selD1),
+			cOpenCreate("open(d1/e/n)", selE, "n")),
 		// Lazy directory initialised by several calls at once; the
 		// fetcher fails the first time.
 		concurrentScenario("conc-lazy-init", scOpt{quick: -1, zFailsOnce: true},
